@@ -681,7 +681,9 @@ pub fn eval_io_case(t: &[&str]) -> Option<String> {
             // reply starts to arrive), so that pacing measured from before the I/O instead of after it is exposed.
             let slow = timing && t.get(3) == Some(&"slow");
             let empty: [&str; 0] = [];
-            let (rs, ws): (&[&str], &[&str]) = if timing { (&empty[..], &empty[..]) } else { split_at("/", &t[3..]) };
+            // (TM may carry read / write schedules after `slow`, as SB does)
+            let sched_from = if timing { 3 + slow as usize } else { 3 };
+            let (rs, ws): (&[&str], &[&str]) = if t.len() > sched_from { split_at("/", &t[sched_from..]) } else { (&empty[..], &empty[..]) };
             let trials = if !timing { 1 } else if slow { 3 } else { 12 };
             let mut min_send = Duration::from_secs(3600);
             let mut min_recv = Duration::from_secs(3600);
